@@ -239,11 +239,15 @@ class StreamSession:
         _MAX_DRAIN = 10_000
         for _ in range(_MAX_DRAIN):
             try:
-                _read_batch_with_log_check(self._output_reader, self._on_log, self._external_config, shm=self._shm)
+                dropped = _read_batch_with_log_check(
+                    self._output_reader, self._on_log, self._external_config, shm=self._shm
+                )
             except (StopIteration, pa.ArrowInvalid, OSError):
                 return
             except Exception:  # RpcError, or the caller's on_log raising: keep draining
                 continue
+            # Nobody will ever see this batch: give its shm region back.
+            dropped.release()
 
     def close(self) -> None:
         """Close input stream (signals EOS) and drain remaining output."""
